@@ -297,7 +297,7 @@ for a reason outside the election (`FOp.failA` / `FOp.failB`: transport failure,
 a run is at rest, both nodes hold the SAME connections, and at most ONE. What is lost compared to
 `late_dials_converge` is "at least one": if the elected link goes away after its competitors were
 closed, both nodes are left with no link until somebody dials again (example below; on the real
-code: finding F10, repaired). -/
+code: finding F12, repaired). -/
 theorem with_failures_never_two_links (o : Ordering) (ho : o ≠ .eq) (ops : List FOp)
     (hA : ((fDials ops).map (·.idA)).Nodup) (hB : ((fDials ops).map (·.idB)).Nodup)
     (hq : hsQuiescent (fRun o ops) = true) :
@@ -309,7 +309,7 @@ theorem with_failures_never_two_links (o : Ordering) (ho : o ≠ .eq) (ops : Lis
 
 /-- what is lost: c0 is up on both nodes; c1 (lower nonce) is dialled and wins on node B, which
 closes c0; before node A gets to elect, its end of c1 gives up (`failA`): at rest NO link is left,
-although two connections existed — the model of finding F10. With a re-dial the nodes converge again. -/
+although two connections existed — the model of finding F12. With a re-dial the nodes converge again. -/
 example :
     let c0 : Conn := ⟨false, 9, 10, 20⟩
     let c1 : Conn := ⟨false, 3, 11, 21⟩
